@@ -273,6 +273,19 @@ def run(ctx):
                     ctx.tick(n, ("mixed", ver, assign))
                     for c, e, o in v:
                         ctx.violation(c, {"kind": "mixed", "version": ver, "b": bb, "le": ll, "u": uu}, e, o)
+        # energy patterns of a batch: every assignment of 3 energy values to batches of 3..4 events (includes batches
+        # whose first and last energies coincide while the interior differs, sorted, reversed and constant batches)
+        evals = [float(lax[2]), float(0.5 * (lax[10] + lax[11])), float(lax[-1])]
+        bmid = float(0.5 * (bax[7] + bax[8]))
+        for n in (3, 4):
+            for pat in itertools.product(range(3), repeat=n):
+                ll = [evals[k] for k in pat]
+                bb = [bmid, float(bax[20]), float(bax[3]), bmid][:n]
+                uu = [0.37, 0.11, 0.83, 0.59][:n]
+                v = judge_mixed(ver, bb, ll, uu)
+                ctx.tick(n, ("energy_pattern", ver, pat[0] == pat[-1], len(set(pat))))
+                for c, e, o in v:
+                    ctx.violation(c, {"kind": "mixed", "version": ver, "b": bb, "le": ll, "u": uu}, e, o)
     ctx.sample({"kind": "mixed", "angles_deg": [0.0, 10.0, 60.0], "u": [0.37, 0.11, 0.83]})
 
 
